@@ -77,7 +77,7 @@ func eval(in []*big.Int) []*big.Int {
 	case 5: // ConfigMap content (cluster config + node overlay)
 		top, base := d.Str(), d.Str()
 		cfg, err := daemon.MergeConfigAndUnmarshal([]byte(top), []byte(base))
-		if err == nil && cfg != nil {
+		if err == nil { // as the callers do (LoadGlobalConfig, ConfigFromConfigMap): no nil check
 			cfg.Populate()
 			_ = cfg.Validate()
 			_ = cfg.GetSecurityGroups()
@@ -251,6 +251,14 @@ func gen(r *hx.Rand) [][]*big.Int {
 			b.Str(str())
 		}
 		add(b.Bool(ro.Bool()).Bool(ro.Bool()))
+	}
+	for _, j := range jsons { // every document as the whole ConfigMap content, without and with an overlay
+		for _, top := range []string{"", "{}", " ", "null"} {
+			for _, pad := range []string{"", " ", "\n"} {
+				var b hx.B
+				add(b.I(5).Str(top).Str(pad + j + pad))
+			}
+		}
 	}
 	for i := 0; i < n/6; i++ {
 		for _, fn := range []int{3, 4, 6} {
